@@ -206,6 +206,8 @@ class CallMixin:
         return self.call(f, args, kwargs, st, n)
 
     def call(self, f, args, kwargs, st, node=None):
+        if isinstance(f, OpaqueV) and f.kind == "for_stdout" and len(args) == 1 and isinstance(args[0], Sym) and args[0].tag == "line":
+            return ("text", args[0])          # the line's terminal string (FmtStr.__str__, C01), as a token for the ghost terminal
         if isinstance(f, OpaqueV) and getattr(self.contract, "abstract", False):
             return OpaqueV("result of an opaque callable")
         if isinstance(f, ConcreteFn):
@@ -466,6 +468,9 @@ class CallMixin:
         from .values import AbsSeq
         if isinstance(v, AbsSeq):
             return mk_int(v.n)
+        if isinstance(v, Sym) and v.tag == "line":
+            st.fact(T.line_facts(v.t))
+            return mk_int(T.LINELEN(v.t))
         if isinstance(v, OpaqueV) and getattr(self.contract, "abstract", False):
             n = st.nd_int("len@opaque")
             st.assume(n >= 0)
@@ -701,7 +706,10 @@ class CallMixin:
                 if c is None:
                     raise Unsupported(f"method {o.cls}.{name} without a contract")
                 return self.call_contract(c, [recv] + list(args), kwargs, st)
-            from .values import AbsV, AbsSeq
+            from .values import AbsV, AbsSeq, SymDict
+            if isinstance(o, SymDict) and name == "get" and is_int(args[0]) and (len(args) == 1 or args[1] is None):
+                k = int_term(args[0])
+                return Sym("optline", z3.If(z3.Select(o.present, k), z3.Select(o.val, k), z3.IntVal(-1)))
             if isinstance(o, AbsV) and getattr(self.contract, "abstract", False) and name == "get":
                 return OpaqueV("dict value")
             if isinstance(o, AbsV) and getattr(self.contract, "abstract", False) and name in ("items", "keys", "values"):
